@@ -144,6 +144,10 @@ impl<'a> TypingContext<'a> {
     } else {
       return false;
     };
+    if interface_type.is_class_statics {
+      // The type of a bare class name has no super types: it is not an instance of the class.
+      return interface_type.is_the_same_type(upper);
+    }
     vec![interface_type]
       .into_iter()
       .chain(
